@@ -252,8 +252,10 @@ func (c *Client) JoinPresence(ctx context.Context, p stanza.Presence, s *xmpp.Se
 		client:  c,
 		session: s,
 
-		join:   make(chan joinCtx, 1),
-		depart: make(chan struct{}),
+		join: make(chan joinCtx, 1),
+		// Buffered so that a departure handled between the moment Leave has sent
+		// its request and the moment it starts to wait is not lost.
+		depart: make(chan struct{}, 1),
 	}
 	if c.managed == nil {
 		c.managed = make(map[string]*Channel)
